@@ -992,7 +992,7 @@ func (fr *frame) writeTo(w value, s value) value {
 	if m == nil {
 		panic(unsupported(fmt.Sprintf("writeTo: %s has no Write", wi.t)))
 	}
-	return call(fr.i, fr, token.NoPos, m, []value{wi.v, symBytes{s}})
+	return call(fr.i, fr, token.NoPos, m, []value{wi.v, symBytes{s, nil}})
 }
 
 // realBody runs the intercepted function's own SSA body.
